@@ -261,8 +261,20 @@ def rule_cap_bound(ctx, rid, fi, context):
                     groups[key] = (capterm, ls)
     if not groups:
         raise AnalysisError('%s: layer loop has no evaluated iteration' % fi.qualname)
+    # the cap enforced by the loop must be the caller's cap; the only documented reduction is mask_sift lowering it
+    # to the number of user-supplied mask frequencies
+    allowed = {S(CAP)}
+    if fi.name == 'mask_sift':
+        allowed.add(('call', 'builtins.len', (S('mask_freqs'),), ()))
     for key in sorted(groups):
         capterm, summ = groups[key]
+        if capterm not in allowed:
+            ctx.violation(rid, fi, 'the cap enforced by the layer loop is the requested cap',
+                          'the requested cap is replaced by %s before the layer loop: a capped run can return fewer '
+                          'components than the cap although the uncapped run has them, so it is no longer the first k '
+                          'components of the uncapped run' % show(capterm)[:90], node=loop,
+                          expected=CAP, found=show(capterm)[:120])
+            continue
         _cap_bound_one(ctx, rid, fi, loop, acc, tag, head_acc, alg, ev, capterm, summ,
                        'columns at the cap exit <= cap' + ('' if capterm == S(CAP) else ' [cap := %s]' % show(capterm)))
 
